@@ -43,6 +43,12 @@ type (
 		opts          *CompilerOptions
 		trace         io.Writer
 		indent        int
+		compileDepth  int
+	}
+
+	// compilerBailout is the panic value to stop compilation with an error.
+	compilerBailout struct {
+		err error
 	}
 
 	// CompilerOptions represents customizable options for Compile().
@@ -317,7 +323,25 @@ func (c *Compiler) Bytecode() *Bytecode {
 }
 
 // Compile compiles parser.Node and builds Bytecode.
-func (c *Compiler) Compile(node parser.Node) error {
+func (c *Compiler) Compile(node parser.Node) (err error) {
+	if c.compileDepth == 0 {
+		// instructions are emitted deep in the call tree without an error
+		// return path, an instruction which cannot be encoded (operand is out
+		// of range) bails out with a panic and it is returned as an error here.
+		defer func() {
+			if r := recover(); r != nil {
+				b, ok := r.(*compilerBailout)
+				if !ok {
+					panic(r)
+				}
+				c.compileDepth = 0
+				err = b.err
+			}
+		}()
+	}
+	c.compileDepth++
+	defer func() { c.compileDepth-- }()
+
 	if c.trace != nil {
 		if node != nil {
 			defer untracec(tracec(c, fmt.Sprintf("%s (%s)",
@@ -457,7 +481,7 @@ func (c *Compiler) changeOperand(opPos int, operand ...int) {
 	inst := make([]byte, 0, 8)
 	inst, err := MakeInstruction(inst, op, operand...)
 	if err != nil {
-		panic(err)
+		panic(&compilerBailout{err: fmt.Errorf("Compile Error: %w", err)})
 	}
 	c.replaceInstruction(opPos, inst)
 }
@@ -543,7 +567,10 @@ func (c *Compiler) emit(node parser.Node, opcode Opcode, operands ...int) int {
 	inst := make([]byte, 0, 8)
 	inst, err := MakeInstruction(inst, opcode, operands...)
 	if err != nil {
-		panic(err)
+		if node == nil || c.file == nil {
+			panic(&compilerBailout{err: fmt.Errorf("Compile Error: %w", err)})
+		}
+		panic(&compilerBailout{err: c.error(node, err)})
 	}
 
 	pos := c.addInstruction(inst)
